@@ -36,7 +36,7 @@ class MsSpec(netx.Spec):
     def check_state(self, world, event, report):
         if world.exception is not None:
             ev, et, msg, where = world.exception
-            report(f"C05|{self.algo}|handler-raised|{et}|{where[-1]}", f"{self.algo} on {self.spec}: event {ev} raised {et}: {msg} at {where}")
+            report(f"C05|{self.algo}|handler-raised|{et}|{netx.site(where)}", f"{self.algo} on {self.spec}: event {ev} raised {et}: {msg} at {where}")
 
     def check_end(self, world, report):
         if world.exception is not None:
